@@ -116,7 +116,9 @@ PROGFUZZ = {
                      "mean is only used on small integers (sums exact in f64) and cast to i32"],
     ),
     "C02": dict(
-        quick=dict(programs=120, cases=6), thorough=dict(programs=960, cases=12),
+        quick=dict(programs=120, cases=4), thorough=dict(programs=960, cases=8),
+        # the shard count of the concurrent indices is fixed per process by the first use: 64 shards and 4 shards
+        proc_configs=[dict(VERIF_FIRST_POOL=16), dict(VERIF_FIRST_POOL=1)],
         level="exploration",
         rule=("Programs from the full grammar (relations, lattices, negation, aggregation), each printed as ascent! (reference form), "
               "ascent_par!, ascent_par! + #![inter_rule_parallelism] and (every third) ascent_run_par!. Every parallel form runs in "
@@ -130,7 +132,8 @@ PROGFUZZ = {
                      "rustc compiles the generated crate faithfully", "the reference evaluator is correct"],
     ),
     "C05": dict(
-        quick=dict(programs=96, cases=12), thorough=dict(programs=960, cases=30),
+        quick=dict(programs=96, cases=8), thorough=dict(programs=960, cases=20),
+        proc_configs=[dict(VERIF_FIRST_POOL=16), dict(VERIF_FIRST_POOL=1)],
         level="exploration",
         rule=("Programs built to maximise re-derivation: duplicated rules, two head clauses into the same relation, derived relations "
               "that also receive input facts, projection rules (many body matches, <= 2 distinct head tuples), inputs containing caller "
@@ -419,7 +422,7 @@ def progfuzz(prop, tier, seed, replay=None):
                 open(cur, "w").write(txt)
         compile_failures.extend(cf for cf in build_ws(ws, prop, plan["batches"])
                                 if (cf["batch"], cf["module"]) not in {(c["batch"], c["module"]) for c in compile_failures})
-        for pc in cfg.get("proc_configs", [dict()]):
+        for pc in cfg.get("proc_configs", [dict(VERIF_FIRST_POOL=16)]):
             if os.path.exists(res_path):
                 os.remove(res_path)
             extra = {k: str(v) for k, v in pc.items()}
